@@ -13,6 +13,8 @@ import os
 from . import common as cm
 from . import c04_s2s as S
 
+ANCHORS = S.ANCHORS
+
 # ---------------------------------------------------------------------------------------------
 # the synthetic universe and the database over it
 
@@ -20,6 +22,36 @@ DB_EXEC = ("import numpy as np\nimport osx\nfrom pkg import b, c\nfrom m import 
            "from pkg.sub import e\nimport pkg.sub as f\nimport pkg.util\nimport aa.bb\n")
 DB_EXEC_MAND = DB_EXEC + "__mandatory_imports__=['from __future__ import division']\n"
 DB_EXEC_MAND2 = DB_EXEC + "__mandatory_imports__=['from __future__ import division', 'import osx']\n"
+# a second universe in which other names are the ambiguous / unique ones
+DB_EXEC2 = ("import numpy as np\nfrom pkg import b\nfrom n import b\nfrom qq import b\nfrom pkg.sub import c\nfrom n import c\n"
+            "from n import e\nimport osx\nfrom m import d\nfrom qq.sub import d\nimport pkg.sub as f\n")
+
+
+def db_index(dbtext):
+    """local name -> list of full names the database offers for it; read with stdlib ast, not with pyflyby."""
+    idx = {}
+    for st in ast.parse(dbtext).body:
+        if isinstance(st, ast.Import):
+            for a in st.names:
+                idx.setdefault(a.asname or a.name, []).append(a.name)
+        elif isinstance(st, ast.ImportFrom):
+            for a in st.names:
+                idx.setdefault(a.asname or a.name, []).append((st.module or "") + "." + a.name)
+    return idx
+
+
+def db_mandatory(dbtext):
+    for st in ast.parse(dbtext).body:
+        if isinstance(st, ast.Assign) and getattr(st.targets[0], "id", None) == "__mandatory_imports__":
+            out = set()
+            for s in ast.literal_eval(st.value):
+                for b in ast.parse(s).body:
+                    for a in b.names:
+                        out.add((a.asname or a.name).split(".")[0])
+            return out
+    return set()
+
+
 UNIQUE = {"np": ("numpy", "np"), "osx": ("osx", "osx"), "b": ("pkg.b", "b"), "c": ("pkg.c", "c"), "d": ("m.d", "d"),
           "f": ("pkg.sub", "f")}
 AMBIG = {"e"}
@@ -42,7 +74,8 @@ def use(r, pool=None):
 def existing_import(r):
     return r.choice(["import qq", "import qq.sub", "from qq import zq", "import qq.sub as qs", "import numpy as np",
                      "import osx", "from pkg import b", "from m import d, d2", "import pkg.sub as f", "from n import e",
-                     "from qq import zr, zs", "import pkg.util", "from pkg import c as c"])
+                     "from qq import zr, zs", "import pkg.util", "from pkg import c as c", "from n import zq2", "from pkg.sub import zq3",
+                     "from qq.sub import zq4", "from pkg import zq5"])
 
 
 def gen_exec(r):
@@ -113,7 +146,7 @@ def gen_cases(ctx, n):
         k = i % 10
         if k == 7:
             fl = S.gen_flags(r)
-        db = r.choice([DB_EXEC, DB_EXEC, DB_EXEC_MAND, DB_EXEC_MAND2])
+        db = r.choice([DB_EXEC, DB_EXEC, DB_EXEC_MAND, DB_EXEC_MAND2, DB_EXEC2, DB_EXEC2])
         c = {"kind": "tidy", "stream": "exec", "i": i, "src": src, "db": db, "flags": fl, "params": r.choice(S.PARAMS)}
         if k == 8:
             c["filename"] = r.choice(["/nonexistent-verif/pkgdir/__init__.py", "/nonexistent-verif/.pyflyby/x.py",
@@ -136,6 +169,12 @@ WITNESSES = [
     # F35: two mandatory imports, the new top block ties with the existing first block
     {"kind": "tidy", "stream": "witness", "w": "F35", "src": "import qq\nqq\n", "db": DB_EXEC_MAND2,
      "flags": {"add_missing": True, "remove_unused": True, "add_mandatory": True}, "params": None},
+    # F23 (second face): the unused LOCAL import's line is the line right after the global block
+    {"kind": "tidy", "stream": "witness", "w": "F23b", "src": "import qq as osx\ndef fn(): import qq.sub as osx\nosx.getcwd()\n", "db": DB_EXEC,
+     "flags": {"add_missing": True, "remove_unused": True, "add_mandatory": False}, "params": None},
+    # never_guess on a file that already imports from one candidate's module
+    {"kind": "tidy", "stream": "witness", "w": "guess", "src": "from n import zq2\nzq2\ne.x\nb.y\n", "db": DB_EXEC2,
+     "flags": {"add_missing": True, "remove_unused": True, "add_mandatory": False}, "params": None},
     # F23: unused import in a block that starts on the line where the previous block's text ends
     {"kind": "tidy", "stream": "witness", "w": "F23", "src": "import qq\nv1 = 1; import zz\nqq\n", "db": DB_EXEC,
      "flags": {"add_missing": True, "remove_unused": True, "add_mandatory": False}, "params": None},
@@ -292,19 +331,29 @@ def oracle(c, im):
         before, after = import_bound(c["src"]), import_bound(out)
     except SyntaxError:
         return [("output_parses", "output of tidy does not parse")]
-    # never_guess: ambiguous and unknown names are not imported by the tool
-    mand = {a.split(".")[0] for _, a in im.get("mandatory", [])} if fl.get("add_mandatory", True) else set()
-    for nme in sorted((set(after) - set(before)) & (AMBIG | UNKNOWN) - mand):
-        bad.append(("never_guess", "name %r with 0 or >= 2 candidates is imported by the output: %r" % (nme, after[nme])))
+    # never_guess, straight from the output text and the database text: a name the tool newly binds by a
+    # top-level import has exactly one database entry and is bound to that entry (or is a mandatory import)
+    idx = db_index(c.get("db", ""))
+    mand = db_mandatory(c.get("db", "")) if fl.get("add_mandatory", True) else set()
+    unique = {n for n, v in idx.items() if len(set(v)) == 1}
+    for nme in sorted(set(after) - set(before)):
+        if nme in mand:
+            continue
+        cands = sorted(set(idx.get(nme, [])))
+        if len(cands) != 1:
+            bad.append(("never_guess", "name %r with %d database candidates %r is imported by the output: %r"
+                        % (nme, len(cands), cands, after[nme])))
+        elif not any(h[1] == cands[0] or (h[0] == "from" and h[1] == cands[0]) for h in after[nme]):
+            bad.append(("never_guess", "name %r is imported as %r, the database says %r" % (nme, after[nme], cands)))
     ro, rs = im.get("run_out"), im.get("run_src")
     if fl.get("add_missing", True) and rs and "unbound" in rs:
         if ro is None or "error" in ro:
             bad.append(("output_runs", "input runs, output fails: %r" % (ro,)))
         else:
-            still = sorted(set(ro["unbound"]) & set(UNIQUE) & set(rs["unbound"]))
+            still = sorted(set(ro["unbound"]) & unique & set(rs["unbound"]))
             if still:
                 bad.append(("added_before_first_read", "names with a unique database entry are still unbound when read: %r" % still))
-            newly = sorted((set(ro["unbound"]) - set(rs["unbound"])) & set(UNIQUE))
+            newly = sorted((set(ro["unbound"]) - set(rs["unbound"])) & unique)
             if newly:
                 bad.append(("binding_lost", "names bound in the input are unbound in the output: %r" % newly))
     if sc.get("find_unused") and fl.get("add_missing", True):
@@ -320,14 +369,7 @@ def oracle(c, im):
 
 
 def classify_known(c, im, clause, detail):
-    """Known findings of other properties that surface through this oracle (DESIGN section 7)."""
-    sc = im.get("scan") or {}
-    if clause == "binding_lost":
-        # F16: `import pkg.sub` reported unused although `pkg` is read: the lost names are roots of such imports
-        roots = {f.split(".")[0] for _, (f, a) in sc.get("unused", []) if "." in f and f == a}
-        lost = set((im.get("run_out") or {}).get("unbound", [])) - set((im.get("run_src") or {}).get("unbound", []))
-        if lost & set(UNIQUE) and lost & set(UNIQUE) <= roots:
-            return "F16"
+    """No open known finding of C04 (F16 is fixed in /repo: commit 659d6a0; a fixed entry suppresses nothing)."""
     return None
 
 
@@ -375,6 +417,8 @@ def run(ctx):
         "the execution oracle runs input and output under a synthetic import universe in which every import succeeds",
     ]
     ctx.notes["trusted_base"] = ["CPython's compile/exec and stdlib ast as the judge of NameError and of what a top-level import binds"]
+    cm.check_anchors(ctx, S.ANCHORS)
+    n *= getattr(ctx, "scale", 1)
     cases = cm.load_corpus("C04") + WITNESSES + gen_cases(ctx, n)
     ne = 0
     for k in range(0, len(cases), 4000):
